@@ -5,6 +5,7 @@
 
 #include <tbox/event/loop.h>
 #include <tbox/event/fd_event.h>
+#include <tbox/event/timer_event.h>
 
 #include <errno.h>
 #include <fcntl.h>
@@ -27,6 +28,8 @@ enum { R = 1, Wm = 2 };
 //   ev <fdidx> <mask> <oneshot> <enabled> <wdis>                    define an event (before the loop starts)
 //   wr|rawrd|fill|unfill|closepeer -1 <dt> <fd> <n>                  driver-side readiness control (from the pre-wait hook)
 //   en|dis|del -1 <dt> <target>                                      posted to the loop
+//   ten|tdis|tdel -1 <dt> <target>                                   performed by a loop timer that expires at that time (so it can
+//                                                                    run in the same pass as descriptor callbacks, before them)
 //   en|dis|del|rd|noread <ctx> <nth> <target|n>                      inside the callback of event ctx on its nth invocation
 void generate(sim::Rng &r, uint64_t seed, const std::string &tier, sim::Plan &p) {
   bool thorough = tier == "thorough";
@@ -59,6 +62,7 @@ void generate(sim::Rng &r, uint64_t seed, const std::string &tier, sim::Plan &p)
       else if (x < 80 && !samefd_only) { op.kind = "en"; op.a = {-1, dt, (long)r.below((uint64_t)nev)}; }
       else if (x < 90 && !samefd_only) { op.kind = "dis"; op.a = {-1, dt, (long)r.below((uint64_t)nev)}; }
       else if (x < 95 && !samefd_only) { op.kind = "del"; op.a = {-1, dt, (long)r.below((uint64_t)nev)}; }
+      else if (x < 98 && !samefd_only) { op.kind = r.chance(500) ? "tdel" : r.chance(500) ? "tdis" : "ten"; op.a = {-1, dt, (long)r.below((uint64_t)nev)}; }
       else { op.kind = "wr"; op.a = {-1, dt, fd, 1}; }
       if (!samefd_only && r.chance(300)) { op.fseed = r.next() >> 2; op.fmask = sim::F_EVENT_SUBSET | (r.chance(300) ? sim::F_WAIT_EINTR : 0); }
     } else {
@@ -108,6 +112,7 @@ struct World {
   bool finished = false;
   long callbacks = 0;
   long same_pass_multi_fd = 0;
+  std::vector<TimerEvent *> timers;
 };
 World W;
 
@@ -275,6 +280,22 @@ RunResult run_once(const sim::Plan &plan, int backend) {
     if (op.arg(0) >= 0) { W.inside.insert({{(int)(op.arg(0) % W.nev), std::max(1L, op.arg(1))}, (int)i}); continue; }
     t += std::max(0L, std::min(100L, op.arg(1))) * 1000000;
     const sim::Op *pop = &op;
+    if (op.kind == "ten" || op.kind == "tdis" || op.kind == "tdel") {
+      long ms = (long)((t - sim::now_ns()) / 1000000);
+      TimerEvent *te = W.loop->newTimerEvent("c03.timer");
+      te->initialize(std::chrono::milliseconds(std::max(1L, ms)), Event::Mode::kOneshot);
+      te->setCallback([pop] {
+        int tg = (int)(((pop->arg(2) % W.nev) + W.nev) % W.nev);
+        sim::trace("timer op %s ev%d", pop->kind.c_str(), tg);
+        sim::relevant();
+        if (pop->kind == "ten") do_enable(tg);
+        else if (pop->kind == "tdis") do_disable(tg);
+        else do_delete(tg, -1);
+      });
+      te->enable();
+      W.timers.push_back(te);
+      continue;
+    }
     tl.at(t, [pop] {
       sim::fault_scope(pop->fseed, pop->fmask);
       sim::relevant();
@@ -347,6 +368,8 @@ RunResult run_once(const sim::Plan &plan, int backend) {
   sim::set_prewait_hook(nullptr);
   sim::set_wait_entry_hook(nullptr);
   W.finished = true;
+  for (TimerEvent *te : W.timers) delete te;
+  W.timers.clear();
   for (int e = 0; e < W.nev; ++e) if (W.m[e].exists && !W.m[e].pending_delete) { delete W.m[e].ev; W.m[e] = EvModel(); }
   if (sim::violation_count() == 0) delete W.loop;   // after an escaped exception the loop object is in an undefined state
   for (int f = 0; f < W.nfd; ++f) { close(W.a[f]); if (!W.peer_closed[f]) close(W.b[f]); }
@@ -373,7 +396,7 @@ bool order_free(const sim::Plan &plan) {
     if (op.fmask) return false;                       // subset/EINTR faults change the pass structure of one back end only
     // operations posted from outside arrive through the loop's own wake-up descriptor: their effect depends on
     // whether that descriptor is served before or after the others in the pass, so such plans are not order-free
-    if (op.arg(0) < 0 && (op.kind == "en" || op.kind == "dis" || op.kind == "del")) return false;
+    if (op.arg(0) < 0 && (op.kind == "en" || op.kind == "dis" || op.kind == "del" || op.kind == "ten" || op.kind == "tdis" || op.kind == "tdel")) return false;
     if (op.arg(0) >= 0 && (op.kind == "en" || op.kind == "dis" || op.kind == "del")) {
       long ctx = op.arg(0) % nev, tg = ((op.arg(2) % nev) + nev) % nev;
       if (evfd[(size_t)ctx] != evfd[(size_t)tg]) return false;
